@@ -9,6 +9,12 @@ CHECKS = {
  "C18": ("bounded-exhaustive input enumeration against the real writer/parser (all value trees <= N nodes x indent x Sort x format; all strings <= 3 runes over a 20-rune alphabet; number set), reference = structural equality + encoding/json",
          "Every value of the stated domain up to 6 (quick) / 7 (thorough) nodes, and every string up to 3 runes over the escaping-relevant alphabet in every placement (incl. map keys), is written in both formats and all indent/sort modes and parsed back; the space is enumerated completely, not sampled.",
          "Trusts encoding/json as the standard JSON parser; values larger than the bound are not covered.", "5.18"),
+ "C01": ("deviation-bounded exhaustive enumeration of requests (all documents within k mutations of 9 base documents x data graphs x operation names x variable maps) executed on the real resolver under RS/AS/FS, compared with an independent reference executor (data, error paths, resolver call set)",
+         "Every request within the mutation bound is executed against fresh roots of every in-claim strategy configuration and compared position by position with a reference executor written from the June-2018 execution algorithm; quick = 1 mutation, thorough = 2.",
+         "Fixed universe schema (schema variety is the subject of C13-C17); the reference executor is trusted; abstract-type dispatch is decided by C08.", "5.1"),
+ "C09": ("complete enumeration of the finite inclusion table (49 source pairs x 2 orders x 3 selection kinds x 3 depths x strategy configurations) on the real resolver against the inclusion formula and the resolver call set",
+         "The whole table the property quantifies over is enumerated, so within the fixed schema the verdict is complete, not bounded.",
+         "Fixed universe schema and data graph; absent-and-undefaulted variables are outside the table.", "5.9"),
 }
 
 NOT_YET = {}
